@@ -35,6 +35,9 @@ func (s *SM) inc() {
 	}
 }
 
+// Inc advances the counter by one (exported for adversary models).
+func (s *SM) Inc() { s.inc() }
+
 func (s *SM) iv() []byte {
 	iv := make([]byte, blockSize(s.Suite))
 	if isAES(s.Suite) {
